@@ -121,7 +121,7 @@ def extract(config="default", repo=None, keep=False):
 
 
 class Body:
-    __slots__ = ("raw", "name", "nname", "kind", "loc", "expn", "argc", "locals", "names", "blocks", "_calls")
+    __slots__ = ("raw", "name", "nname", "kind", "loc", "expn", "argc", "locals", "names", "blocks", "_calls", "inlined")
 
     def __init__(self, raw):
         self.raw = raw
@@ -135,6 +135,7 @@ class Body:
         self.names = {int(k): v for k, v in raw["names"].items()}
         self.blocks = raw["blocks"]
         self._calls = None
+        self.inlined = []
 
     def calls(self):
         """[(bb, term)] for every Call terminator in non-cleanup blocks, in block order."""
@@ -193,10 +194,174 @@ class Facts:
                         b.nname = "%s#%d" % (b.nname, k)
                     self.bodies[b.nname] = b
         self._callers = None
+        self._views = {}
+        self._anchors = None
 
-    # -- lookups -------------------------------------------------------------------------------
-    def body(self, nname):
+    # -- helper inlining ------------------------------------------------------------------------
+    # Path rules are written against the functions the rules name (anchors).  A refactoring that moves part
+    # of an anchor's body into a new private helper must not blind or alarm them, so `body()` hands out a
+    # *view* in which calls to crate-local, non-anchored, non-recursive helpers are spliced into the caller's
+    # CFG (callee locals/blocks renumbered, parameters assigned from the arguments, `return` replaced by an
+    # assignment to the call destination and a goto).  WHO censuses keep using the raw bodies and attribute a
+    # helper to its unique caller (`owner`).
+    LOGIC_PREFIXES = ("work::", "run::", "task::", "db::", "load::", "parse::", "depfile::", "graph::", "hash::", "process_posix::", "progress_fancy::", "progress_dumb::", "progress::", "scanner::", "canon::", "eval::", "terminal::")
+
+    def _load_anchors(self):
+        names = set()
+        try:
+            for line in open(os.path.join(VERIF, "analysis", "anchors.txt")):
+                line = line.strip()
+                if line and not line.startswith("#"):
+                    names.add(line)
+        except OSError:
+            pass
+        return names
+
+    def anchored(self, nname):
+        if self._anchors is None:
+            self._anchors = self._load_anchors()
+        return nname in self._anchors
+
+    def inlinable(self, nname, caller=None):
+        b = self.bodies.get(nname)
+        if b is None or b.kind not in ("fn", "assoc") or b.expn:
+            return False
+        if not nname.startswith(self.LOGIC_PREFIXES):
+            return False
+        if self.anchored(nname):
+            return False
+        if len(b.blocks) > 120:
+            return False
+        for _, t in b.calls():
+            if callee_of(t) == nname:
+                return False
+        return True
+
+    def owner(self, nname):
+        """the anchored function a helper / closure belongs to for who-may-call purposes"""
+        seen = set()
+        while nname not in seen:
+            seen.add(nname)
+            if "::{closure#" in nname:
+                nname = nname.split("::{closure#")[0]
+                continue
+            if not self.inlinable(nname):
+                return nname
+            callers = {b.nname.split("::{closure#")[0] for b, _, _ in self.call_sites(nname)} - {nname}
+            if len(callers) != 1:
+                return nname
+            nname = next(iter(callers))
+        return nname
+
+    def raw(self, nname):
         return self.bodies.get(nname)
+
+    def body(self, nname):
+        b = self.bodies.get(nname)
+        if b is None or b.kind == "promoted" or os.environ.get("N2SA_NO_INLINE"):
+            return b
+        v = self._views.get(nname)
+        if v is None:
+            v = self._views[nname] = self._inline(b, 3, (nname,))
+        return v
+
+    def _inline(self, body, depth, stack):
+        if depth == 0:
+            return body
+        targets = [(bi, blk["term"]) for bi, blk in enumerate(body.blocks) if not blk["cleanup"] and blk["term"] and blk["term"]["k"] == "call" and blk["term"]["target"] >= 0 and callee_of(blk["term"]) not in stack and self.inlinable(callee_of(blk["term"])) and not blk["term"]["dest"]["p"]]
+        if not targets:
+            return body
+        import copy
+
+        raw = copy.deepcopy({k: body.raw[k] for k in ("name", "kind", "loc", "expn", "argc", "locals", "names", "blocks")})
+        for bi, t in targets:
+            cname = callee_of(t)
+            cb = self._inline(self.bodies[cname], depth - 1, stack + (cname,))
+            lbase = len(raw["locals"])
+            bbase = len(raw["blocks"])
+            raw["locals"].extend(copy.deepcopy(cb.locals))
+            for l, nm in cb.names.items():
+                raw["names"][str(l + lbase)] = nm
+
+            def fix_place(pl):
+                pl["l"] += lbase
+                for pr in pl["p"]:
+                    if pr["k"] == "index":
+                        pr["l"] += lbase
+
+            def fix_op(o):
+                if o is None:
+                    return
+                if o["k"] in ("copy", "move"):
+                    fix_place(o["place"])
+                elif o["k"] == "const" and o.get("promoted", -1) >= 0 and "pname" not in o:
+                    o["pname"] = cb.name if "pname" not in o else o["pname"]
+
+            def fix_rv(rv):
+                k = rv["k"]
+                if k in ("use", "cast"):
+                    fix_op(rv["op"])
+                elif k in ("ref", "rawptr", "discr"):
+                    fix_place(rv["place"])
+                elif k == "bin":
+                    fix_op(rv["a"])
+                    fix_op(rv["b"])
+                elif k == "un":
+                    fix_op(rv["a"])
+                elif k == "agg":
+                    for o in rv["ops"]:
+                        fix_op(o)
+
+            new_blocks = copy.deepcopy(cb.blocks)
+            call_blk = raw["blocks"][bi]
+            dest = call_blk["term"]["dest"]
+            ret_target = call_blk["term"]["target"]
+            for nb in new_blocks:
+                for st in nb["stmts"]:
+                    if st["k"] == "assign":
+                        fix_place(st["place"])
+                        fix_rv(st["rv"])
+                    elif st["k"] == "setdiscr":
+                        fix_place(st["place"])
+                    elif st["k"] == "dead":
+                        st["l"] += lbase
+                tt = nb["term"]
+                if tt is None:
+                    continue
+                k = tt["k"]
+                if k in ("goto", "drop", "assert"):
+                    tt["target"] += bbase
+                    if k == "drop":
+                        fix_place(tt["place"])
+                    if k == "assert":
+                        fix_op(tt["cond"])
+                elif k == "switch":
+                    fix_op(tt["discr"])
+                    tt["arms"] = [[v, x + bbase] for v, x in tt["arms"]]
+                    tt["otherwise"] += bbase
+                elif k == "call":
+                    for a in tt["args"]:
+                        fix_op(a)
+                    fix_place(tt["dest"])
+                    if tt["target"] >= 0:
+                        tt["target"] += bbase
+                    if tt["callee"].get("op"):
+                        fix_op(tt["callee"]["op"])
+                elif k == "return":
+                    nb["stmts"].append({"k": "assign", "place": copy.deepcopy(dest), "rv": {"k": "use", "op": {"k": "move", "place": {"l": lbase, "p": [], "ty": cb.locals[0]}}}, "loc": call_blk["term"]["loc"]})
+                    nb["term"] = {"k": "goto", "target": ret_target}
+            # parameter passing, then jump into the callee
+            for ai, a in enumerate(call_blk["term"]["args"]):
+                call_blk["stmts"].append({"k": "assign", "place": {"l": lbase + 1 + ai, "p": [], "ty": cb.locals[1 + ai]}, "rv": {"k": "use", "op": a}, "loc": call_blk["term"]["loc"], "inlined_arg": cname})
+            call_blk["term"] = {"k": "goto", "target": bbase, "inlined": cname, "loc": call_blk["term"]["loc"]}
+            raw["blocks"].extend(new_blocks)
+        nb_ = Body(raw)
+        nb_.nname = body.nname
+        nb_.inlined = sorted({callee_of(t) for _, t in targets})
+        return nb_
+
+    def inlined_helpers(self):
+        return sorted({h for v in self._views.values() for h in getattr(v, "inlined", [])})
 
     def fns(self, include_promoted=False, include_derives=False):
         for b in self.bodies.values():
@@ -210,8 +375,8 @@ class Facts:
         """every non-promoted body, derives included"""
         return [b for b in self.bodies.values() if b.kind != "promoted"]
 
-    def promoted(self, body, idx):
-        base = body.name
+    def promoted(self, body, idx, pname=None):
+        base = pname or body.name
         # promoted bodies are named `<raw name>::promoted[i]`
         return self.bodies.get(norm("%s::promoted[%d]" % (base, idx)))
 
